@@ -4071,15 +4071,19 @@ let set_quota_r a s = function
 let elected_surplus a s =
   vsum a (map (fun c -> a.sub0 c.cvote s.quota) (electeds a s))
 
-(** val update_kfs : arith -> est -> est **)
+(** val update_kfs : arith -> bool -> est -> est **)
 
-let update_kfs a s =
+let update_kfs a =
+  let v2 = v1 a in
+  (fun clamp s ->
   fold_left (fun s0 c ->
     if crashed a s0
     then s0
     else (match a.kdiv (a.kmul (kf_of a c) s0.quota true) c.cvote true with
-          | Ok k -> upd a s0 c.cid (fun c0 -> with_kf a c0 (Some k))
-          | Raise e -> set_crash a s0 e)) (electeds a s) s
+          | Ok k ->
+            let k' = if (&&) clamp (a.gtv k v2) then v2 else k in
+            upd a s0 c.cid (fun c0 -> with_kf a c0 (Some k'))
+          | Raise e -> set_crash a s0 e)) (electeds a s) s)
 
 (** val meek_iter_head : arith -> config -> est -> est **)
 
@@ -4121,7 +4125,7 @@ let meek_iterate a cfg =
      then map (fun c -> c.cid) (batch_defeat a cfg s.surplus s)
      else []))), (Seq ((Ite ((fun s -> nonempty' s.lv_batch), (Seq ((Do
   (fun s -> set_status a s iS_batch)), Break)), Skip)), (Do (fun s ->
-  update_kfs a (set_last a s s.surplus))))))))))))))))))
+  update_kfs a true (set_last a s s.surplus))))))))))))))))))
 
 (** val zero_cand : arith -> Big_int_Z.big_int -> est -> est **)
 
@@ -4348,7 +4352,7 @@ let prf_iterate_step a cfg =
                    else s5
        in
        if Z.eqb s6.lv_status iS_iterate
-       then update_kfs a (set_last a s6 s6.surplus)
+       then update_kfs a false (set_last a s6 s6.surplus)
        else s6)
 
 (** val meek_prf : arith -> config -> est cmd **)
